@@ -23,6 +23,12 @@ type Clause struct {
 	Line   int
 }
 
+type ForgetSpec struct {
+	Callee string
+	K      int
+	Labels []string
+}
+
 type FuncContract struct {
 	Name      string
 	Pkg       string // package path the contract file lives in
@@ -34,12 +40,16 @@ type FuncContract struct {
 	Lets      []*SpecFn // function-local definitions: name(args) type = expr, evaluated in the entry state
 	HasMod    bool
 	Modifies  []SExpr
+	Preserves []*Clause
 	LoopInv   map[int][]*Clause
+	LoopCut    map[int]bool
+	InlineLoopCut []*Clause
 	LoopAssume map[int][]*Clause // assumed (unchecked, reported) facts at a loop head: loop n assume label: P
 	LoopStep  map[int][]*Clause // per-iteration postconditions: loop n step label: P (iter(e) = e at the start of the iteration)
 	InlineLoopInv []*Clause // invariants for loops of callees expanded in place: loop callee[#k].n invariant
 	LoopMod   map[int][]SExpr
 	CallAsserts []*Clause
+	CallForget  []ForgetSpec
 	Inline    bool // expand body at call sites instead of using the contract
 	Safe      bool // generate panic-freedom obligations
 	Trusted   bool // contract is assumed; body not verified (listed)
@@ -110,7 +120,7 @@ func splitLabel(s string) (string, string) {
 }
 
 var clauseKeywords = map[string]bool{
-	"rmul-signs": true, "let": true, "owns": true, "tracks": true, "dynbind": true, "ghost-effect": true, "func": true, "property": true, "requires": true, "ensures": true, "modifies": true,
+	"preserves": true, "rmul-signs": true, "let": true, "owns": true, "tracks": true, "dynbind": true, "ghost-effect": true, "func": true, "property": true, "requires": true, "ensures": true, "modifies": true,
 	"loop": true, "at": true, "inline": true, "safe": true, "trusted": true, "noframe": true,
 	"inloop": true, "holds": true, "pure": true, "ghost": true, "spec": true, "axiom": true,
 	"iface": true, "monitor": true, "confined": true, "lemma": true, "dynpure": true, "note": true,
@@ -220,7 +230,7 @@ func (cs *Contracts) parseFile(file, pkg string) error {
 			if kw != "iface" && rest != "*" {
 				name = qualifyFuncName(rest, pkg)
 			}
-			fc := &FuncContract{Name: name, Pkg: pkg, LoopInv: map[int][]*Clause{}, LoopStep: map[int][]*Clause{}, LoopAssume: map[int][]*Clause{}, LoopMod: map[int][]SExpr{}, File: file, Line: rl.line}
+			fc := &FuncContract{Name: name, Pkg: pkg, LoopInv: map[int][]*Clause{}, LoopStep: map[int][]*Clause{}, LoopAssume: map[int][]*Clause{}, LoopCut: map[int]bool{}, LoopMod: map[int][]SExpr{}, File: file, Line: rl.line}
 			curMon = nil
 			if kw == "iface" {
 				if _, dup := cs.Ifaces[name]; dup {
@@ -242,7 +252,7 @@ func (cs *Contracts) parseFile(file, pkg string) error {
 				return fmt.Errorf("%s:%d: property outside func", file, rl.line)
 			}
 			cur.Props = append(cur.Props, strings.Fields(rest)...)
-		case "requires", "ensures":
+		case "requires", "ensures", "preserves":
 			if cur == nil {
 				return fmt.Errorf("%s:%d: %s outside func", file, rl.line, kw)
 			}
@@ -252,6 +262,11 @@ func (cs *Contracts) parseFile(file, pkg string) error {
 			}
 			if kw == "requires" {
 				cur.Requires = append(cur.Requires, c)
+			} else if kw == "preserves" {
+				// a reflexive, transitive two-state relation every call maintains: proved as a
+				// postcondition, assumed across any number of calls made by external code
+				cur.Preserves = append(cur.Preserves, c)
+				cur.Ensures = append(cur.Ensures, c)
 			} else {
 				cur.Ensures = append(cur.Ensures, c)
 			}
@@ -316,6 +331,15 @@ func (cs *Contracts) parseFile(file, pkg string) error {
 				} else {
 					cur.LoopInv[n] = append(cur.LoopInv[n], c)
 				}
+			case "cut":
+				// loop n cut: obligations inside this loop see only the entry-state facts, the
+				// loop-head assumptions (invariants) and the body: everything else proved before
+				// the loop is dropped from their context (sound: fewer assumptions)
+				if inlCallee != "" {
+					cur.InlineLoopCut = append(cur.InlineLoopCut, &Clause{Kind: "cut", Loop: n, Callee: inlCallee, CallK: inlK})
+				} else {
+					cur.LoopCut[n] = true
+				}
 			case "assume":
 				c, err := mkClause("loopassume", tail, rl.line)
 				if err != nil {
@@ -346,6 +370,18 @@ func (cs *Contracts) parseFile(file, pkg string) error {
 				return fmt.Errorf("%s:%d: at outside func", file, rl.line)
 			}
 			f := strings.Fields(rest)
+			if len(f) >= 3 && f[0] == "call" && f[2] == "forget" {
+				// at call <callee>[#k] forget [labels]: the caller does not use these
+				// postconditions of the callee (assuming less is sound; keeps queries small)
+				callee := f[1]
+				k := 0
+				if idx := strings.LastIndex(callee, "#"); idx >= 0 {
+					k, _ = strconv.Atoi(callee[idx+1:])
+					callee = callee[:idx]
+				}
+				cur.CallForget = append(cur.CallForget, ForgetSpec{Callee: callee, K: k, Labels: f[3:]})
+				break
+			}
 			if len(f) < 4 || f[0] != "call" || (f[2] != "assert" && f[2] != "assume") {
 				return fmt.Errorf("%s:%d: expected 'at call <callee> assert|assume <expr>'", file, rl.line)
 			}
